@@ -84,7 +84,13 @@ pub fn handmade_cas() -> Vec<(String, Vec<u8>, Vec<u8>)> {
 	].concat()));
 	let validity = tlv(0x30, &[tlv(0x17, b"200101000000Z"), tlv(0x17, b"400101000000Z")].concat());
 	let mut out = Vec::new();
-	for (n, name) in names {
+	let mut all_names: Vec<(String, Vec<u8>)> = names.into_iter().map(|(n, b)| (n.to_string(), b)).collect();
+	// subjects at the edges: every string tag with valid and invalid content, empty and
+	// multi-valued RDNs, attribute types with unusual identifiers
+	for (n, b) in crate::props::shapes::names() {
+		all_names.push((format!("shape:{}", n), b));
+	}
+	for (n, name) in all_names {
 		let tbs = tlv(0x30, &[vec![0xa0, 0x03, 0x02, 0x01, 0x02], vec![0x02, 0x01, 0x2a], ed.clone(), name.clone(), validity.clone(), name.clone(), spki.clone(), exts.clone()].concat());
 		let sig = kp.sign(&tbs);
 		let mut sb = vec![0u8];
@@ -189,7 +195,7 @@ fn webpki_chain_ok(leaf: &[u8], ca: &[u8]) -> Option<bool> {
 
 /// issue a leaf from (issuer params, issuer key) and check the chain properties against the
 /// *original* CA certificate bytes
-fn chain_case(s: &mut Suite, what: &str, ca_der: &[u8], issuer_params: CertificateParams, ca_key: &KeyPair, leaf_kid: Kid, tag: &str) {
+fn chain_case(s: &mut Suite, what: &str, ca_der: &[u8], issuer_params: CertificateParams, ca_key: &KeyPair, leaf_kid: Kid, tag: &str, oracles: bool) {
 	let line = format!("{} ca={}", what, hex(ca_der));
 	s.rep.case(&line, true);
 	s.rep.count(&format!("chain_cases:{}", tag));
@@ -240,7 +246,11 @@ fn chain_case(s: &mut Suite, what: &str, ca_der: &[u8], issuer_params: Certifica
 			s.rep.violate(&format!("C03:aki-equals-issuer-ski:{}", tag), "the authority key identifier differs from the issuer certificate's subject key identifier", format!("{}\nleaf={}\nissuer SKI={:?}\nleaf AKI={:?}", line, hex(leaf.der()), ski_id.map(|b| hex(&b)), aki_id.map(|b| hex(&b))));
 		}
 	}
-	// independent path validators
+	// independent path validators (not for subjects built to sit at the edges of what validators
+	// themselves accept: there the byte identity above is the judgement)
+	if !oracles {
+		return;
+	}
 	match openssl_chain_ok(leaf.der(), ca_der) {
 		Some(true) => s.rep.count("oracle_openssl_chain_ok"),
 		Some(false) => s.rep.violate(&format!("C03:openssl-chain:{}", tag), "OpenSSL does not build/accept the chain from the issued certificate to its issuer", format!("{}\nleaf={}", line, hex(leaf.der()))),
@@ -436,7 +446,7 @@ pub fn run(ctx: &mut Ctx, prop: &str) -> Report {
 				}
 			} else if p.ca != Ca::No && p.ca != Ca::ExplicitNo && k % 3 == 0 {
 				for kid in [Kid::Sha256, Kid::Pre(vec![1, 2, 3])] {
-					chain_case(&mut s, "rcgen-ca-imported", &der, ip.clone(), &key, kid, "imported-rcgen");
+					chain_case(&mut s, "rcgen-ca-imported", &der, ip.clone(), &key, kid, "imported-rcgen", true);
 				}
 			}
 		}
@@ -446,10 +456,12 @@ pub fn run(ctx: &mut Ctx, prop: &str) -> Report {
 		let kids = [Kid::Sha256, Kid::Sha384, Kid::Sha512, Kid::Pre(vec![9, 8, 7, 6])];
 		for (ai, alg) in algs.iter().enumerate() {
 			for ik in &kids {
-				for lk in &kids {
+				for (lki, lk) in kids.iter().enumerate() {
 					let mut ip = PCert::empty();
 					ip.dn = Dn(vec![(DnT::O, DnV::Utf8("Org".into())), (DnT::Cn, DnV::Utf8(format!("ca {}", ai)))]);
-					ip.ca = Ca::Ca(None);
+					// issuer certificates that carry a subject key identifier: CAs of each kind, and
+					// certificates with explicit basicConstraints cA=FALSE
+					ip.ca = match (ai + lki) % 3 { 0 => Ca::Ca(None), 1 => Ca::Ca(Some(1)), _ => Ca::ExplicitNo };
 					ip.kid = ik.clone();
 					ip.nb = Dt::ymd(2020, 1, 1);
 					ip.na = Dt::ymd(2040, 1, 1);
@@ -457,7 +469,9 @@ pub fn run(ctx: &mut Ctx, prop: &str) -> Report {
 					let key = s.ctx.key(alg);
 					let rp = ip.real().unwrap();
 					let ca = rp.clone().self_signed(&key).unwrap();
-					chain_case(&mut s, "rcgen-ca", &ca.der().to_vec(), rp, &key, lk.clone(), "rcgen");
+					// validators are asked only where the issuer is a CA (the property's own condition)
+					let is_ca = ip.ca != Ca::ExplicitNo;
+					chain_case(&mut s, "rcgen-ca", &ca.der().to_vec(), rp, &key, lk.clone(), if is_ca { "rcgen" } else { "rcgen-explicit-no-ca" }, is_ca);
 				}
 			}
 		}
@@ -490,7 +504,7 @@ pub fn run(ctx: &mut Ctx, prop: &str) -> Report {
 						s.rep.count("openssl_key_not_loadable");
 						continue;
 					};
-					chain_case(&mut s, &format!("openssl-ca-imported shape={}", ca.shape), &ca.der, ip, &kp, Kid::Sha256, "imported-openssl");
+					chain_case(&mut s, &format!("openssl-ca-imported shape={}", ca.shape), &ca.der, ip, &kp, Kid::Sha256, "imported-openssl", true);
 				}
 			}
 		}
@@ -501,7 +515,8 @@ pub fn run(ctx: &mut Ctx, prop: &str) -> Report {
 		let imported = import_case(&mut s, "handmade", &der, None);
 		if let (Some(ip), true) = (imported, prop == "C03") {
 			if let Ok(kp) = KeyPair::try_from(pkcs8.as_slice()) {
-				chain_case(&mut s, &format!("handmade-ca-imported shape={}", shape), &der, ip, &kp, Kid::Sha256, "imported-handmade");
+				let edge = shape.starts_with("shape:");
+				chain_case(&mut s, &format!("handmade-ca-imported shape={}", shape), &der, ip, &kp, Kid::Sha256, if edge { "imported-handmade-edge" } else { "imported-handmade" }, !edge);
 			}
 		}
 	}
